@@ -84,6 +84,8 @@ def check(ctx):
     if ctx.tier == "thorough":
         import witness
         witness.run(ctx, "C08")
+        import poscontrol
+        poscontrol.run(ctx, "C08")
 
 
 # ---------------------------------------------------------------------------------------- bounded-by-construction terms
@@ -262,8 +264,15 @@ def reviewed(ctx, b, bi, t, cname, key, where, tag):
 # ---------------------------------------------------------------------------------------- main
 
 def check_config(ctx, F, tag, cfg):
-    derived = {i["def"] for i in F.impls if i["derived"]}
     check_width_fields(ctx, F, tag)
+    sites = ledger(ctx, F, tag)
+    n = len(sites)
+    check_rest(ctx, F, tag, cfg)
+    return sites
+
+
+def ledger(ctx, F, tag):
+    derived = {i["def"] for i in F.impls if i["derived"]}
     sites = set()
     n = 0
     per_fn_count = {}
@@ -319,6 +328,10 @@ def check_config(ctx, F, tag, cfg):
                 continue
             ctx.ob("C08.R1.unsafe-site-discharged", key + tag, where, False, "none", "unsafe call %s in safe function %s has no contract-table entry and no reviewed invariant" % (cname, b.name))
     ctx.count("unsafe-call-sites" + tag, n)
+    return sites
+
+
+def check_rest(ctx, F, tag, cfg):
     ctx.floor("unsafe-call-sites" + tag, FLOOR_SITES)
 
     # ---------------- R2 unsafe API table
@@ -352,7 +365,6 @@ def check_config(ctx, F, tag, cfg):
     if cfg == "native":
         check_reinterpretation(ctx, F, "")
     mapped.check_views(ctx, F, tag, prefix="C08.R6")
-    return sites
 
 
 def check_cursors(ctx, F, tag, prefix="C08.R4"):
